@@ -1,6 +1,7 @@
 /// Converts a 64-bit floating point number to an `i32` according to the [`ToInt32`][ToInt32] algorithm.
 ///
 /// [ToInt32]: https://tc39.es/ecma262/#sec-toint32
+#[cfg_attr(kani, kani::ensures(|r| *r == crate::verif_kani::spec::to_int32(number)))]
 #[allow(clippy::float_cmp)]
 #[cfg(not(all(target_arch = "aarch64", target_feature = "jsconv")))]
 pub(crate) fn f64_to_int32(number: f64) -> i32 {
@@ -104,6 +105,7 @@ pub(crate) fn f64_to_uint32(number: f64) -> u32 {
 /// Converts a 64-bit floating point number to an `u32` according to the [`ToUint32`][ToUint32] algorithm.
 ///
 /// [ToUint32]: https://tc39.es/ecma262/#sec-touint32
+#[cfg_attr(kani, kani::ensures(|r| *r == crate::verif_kani::spec::to_uint32(number)))]
 #[cfg(not(all(target_arch = "aarch64", target_feature = "jsconv")))]
 pub(crate) fn f64_to_uint32(number: f64) -> u32 {
     f64_to_int32(number) as u32
